@@ -15,6 +15,9 @@ def run(chk):
                   strat=lambda g: (g['lab']['sort'], g['lab']['reply']['k'], str(g['lab']['reply'].get('idx')),
                                    g['lab']['from']['k'], g['lab']['from'].get('r'), g['lab']['from'].get('d'),
                                    len(g['allowed'][0]['lab']['listing'])), per_stratum=1, thorough_seeds=1)
+    common.fun_laws(chk)
+    common.fun_stage(chk, 'replies', 'reply', 400 if chk.tier == 'quick' else 8000)
+    common.fun_stage(chk, 'scope-order', 'scope', 150 if chk.tier == 'quick' else 3000)
     chk.exhaustive = chk.tier != 'quick'
 
 
